@@ -52,7 +52,8 @@ func (dm *DMap) loadCurrentAtomicInt(e *env) (int, int64, error) {
 	}
 	nr, err := util.ParseInt(entry.Value(), 10, 64)
 	if err != nil {
-		return 0, 0, nil
+		// The value is not a number, start from zero but keep the expiry of the key.
+		return 0, entry.TTL(), nil
 	}
 	return int(nr), entry.TTL(), nil
 }
